@@ -337,6 +337,41 @@ def toRef (i : Nat) (r : RRef) : Reference :=
 
 theorem toRefs_cons (i : Nat) (r : RRef) (rs : List RRef) : toRefs i (r :: rs) = toRef i r :: toRefs (i + 1) rs := rfl
 
+theorem joinLoop_stop (base stop : Str) (rest : List Str) (hs : Stop stop) : joinLoop base (stop :: rest) = .ok base := by
+  simp only [joinLoop]
+  rcases hs with h | ⟨h1, h2⟩
+  · simp [h]
+  · simp [h1, h2]
+
+/-- the REFERENCE line(s), in either form (wrapped `number  range`, or the number followed by two blanks
+when the range is empty): a first line `REFERENCE   c0`, continuation chunks, and `joinSubLines` gives
+back `refHead` -/
+theorem refHeadLines_shape (i : Nat) (r : RRef) (ℓ : RefLayout) (stop : Str) (rest : List Str)
+    (hrange : isText r.range = true) (hstop : Stop stop) :
+    ∃ (c0 : Str) (conts : List Str), refHeadLines i r ℓ = (padRight c!"REFERENCE" 12 ++ c0) :: conts.map (spaces 12 ++ ·) ∧
+      joinSubLines (split (padRight c!"REFERENCE" 12 ++ c0) c!" ") (conts.map (spaces 12 ++ ·) ++ stop :: rest)
+        = .ok (refHead i r) := by
+  have hpad : ∀ X : Str, padRight c!"REFERENCE" 12 ++ X = c!"REFERENCE" ++ (spaces (2 + 1) ++ X) := fun _ => rfl
+  unfold refHeadLines
+  split
+  · rename_i h
+    refine ⟨ofNat (i + 1) ++ c!"  ", [], by simp [List.append_assoc], ?_⟩
+    have hd := ofNat_isDigit (i + 1)
+    have hne := ofNat_ne_nil (i + 1)
+    have hsp : isDigit ' ' = false := by decide
+    have hns : ∀ c ∈ ofNat (i + 1), isSpace c = false := fun c hc => isSpace_false_of_digit (hd c hc)
+    unfold joinSubLines
+    rw [hpad, spaces_succ_append, join_drop_split c!"REFERENCE" _ (by decide)]
+    have e : spaces 2 ++ (ofNat (i + 1) ++ c!"  ") = spaces 2 ++ ofNat (i + 1) ++ spaces 2 := by simp [spaces]
+    rw [e, trimSpace_spaces 2 2 _ (fun c hc => hns c (List.mem_of_mem_head? hc)) (fun c hc => hns c (List.mem_of_getLast? hc))]
+    simp only [List.map_nil, List.nil_append]
+    rw [joinLoop_stop _ _ _ hstop]
+    simp [refHead, h.2]
+  · rw [block_eq]
+    refine ⟨_, _, rfl, ?_⟩
+    rw [hpad]
+    exact joinSubLines_chunks c!"REFERENCE" 2 (refHead i r) ℓ.range stop rest (by decide) (isText_refHead i r hrange) hstop
+
 /-- REFERENCE: number, range and the five optional sub-keyword blocks are recovered, for every wrapping,
 whatever keyword line `m` follows -/
 theorem getReference_lines (i : Nat) (r : RRef) (ℓ : RefLayout) (m : Str) (rest : List Str)
@@ -353,14 +388,12 @@ theorem getReference_lines (i : Nat) (r : RRef) (ℓ : RefLayout) (m : Str) (res
   simp only [show c!"  " ++ c!"AUTHORS" = c!"  AUTHORS" from rfl, show c!"  " ++ c!"TITLE" = c!"  TITLE" from rfl,
     show c!"  " ++ c!"JOURNAL" = c!"  JOURNAL" from rfl, show c!"  " ++ c!"PUBMED" = c!"  PUBMED" from rfl,
     show c!"  " ++ c!"REMARK" = c!"  REMARK" from rfl] at hS1 hS2 hS3 hS4 hS5
+  obtain ⟨stop, rest', hrest, hstop⟩ := hS1
+  obtain ⟨c0, conts, hshape, hbase⟩ := refHeadLines_shape i r ℓ stop rest' hrange hstop
   unfold refLines
-  rw [block_eq]
+  rw [hshape]
   simp only [List.cons_append, List.headD_cons, List.drop_succ_cons, List.drop_zero, List.append_assoc]
   unfold getReference
-  obtain ⟨stop, rest', hrest, hstop⟩ := hS1
-  have hpad : ∀ X : Str, padRight c!"REFERENCE" 12 ++ X = c!"REFERENCE" ++ (spaces (2 + 1) ++ X) := fun _ => rfl
-  have hbase := joinSubLines_chunks c!"REFERENCE" 2 (refHead i r) ℓ.range stop rest' (by decide) (isText_refHead i r hrange) hstop
-  rw [hpad]
   rw [hrest, hbase]
   simp only [Outcome.bind_ok']
   obtain ⟨hidx, hrng⟩ := refHead_split i r hrange
